@@ -754,6 +754,10 @@ MANIFEST = dict(
     'symbolic channel, precoders, filters and powers; after each history the '
     'derived quantities (full_F, unit norms, power budget met exactly, W vs '
     'W_H, full_W_H H_kk full_F = I, full_W, Ns) are proved against an '
+    'independent shadow; the stream-reduction step of solve() '
+    '(_solve_finalize) is run on symbolic two-stream precoders under the svd '
+    'contract (user power unchanged, unit norm), plus one real iteration of '
+    'three iterative solvers; all of it against an '
     'independent shadow by polynomial normal form / linearised z3 prover. '
     'Clauses about what the alternating-minimisation / max-SINR / MMSE / '
     'closed-form solvers converge to are NOT decided (eigenvector '
